@@ -187,6 +187,39 @@ def atom_thunks():
     return T
 
 
+def oracle_only_thunks():
+    """Atoms whose constants the wire format has no code for (datetime, UUID, texts of numbers, a collection as the only member of a
+    membership set): judged on the real objects only."""
+    T = []
+    # constants with a well-known text form (a conversion that "also accepts the text" must be made on both duals or on neither)
+    import datetime as _dt0
+    import uuid as _uuid0
+
+    _d0, _u0 = _dt0.datetime(2020, 1, 2, 3, 4, 5), _uuid0.UUID("12345678-1234-5678-1234-567812345678")
+    T.append(("eq datetime", lambda: eq_p(_d0)))
+    T.append(("ne datetime", lambda: ne_p(_d0)))
+    T.append(("eq uuid", lambda: eq_p(_u0)))
+    T.append(("ne uuid", lambda: ne_p(_u0)))
+    T.append(("in {uuid, datetime}", lambda: in_p(_u0, _d0)))
+    T.append(("not_in {uuid}", lambda: not_in_p(_u0)))
+    T.append(("eq '12'", lambda: eq_p("12")))
+    T.append(("ne '1.5'", lambda: ne_p("1.5")))
+    # a membership set whose ONLY member is itself a collection (or a text that looks like one)
+    T.append(("in {(1, 2)}", lambda: in_p((1, 2))))
+    T.append(("not_in {(1, 2)}", lambda: not_in_p((1, 2))))
+    T.append(("in {()}", lambda: in_p(())))
+    T.append(("in {frozenset({1, 2})}", lambda: in_p(frozenset({1, 2}))))
+    T.append(("not_in {frozenset({1})}", lambda: not_in_p(frozenset({1}))))
+    T.append(("in {'ab'}", lambda: in_p("ab")))
+    T.append(("in {((1, 2),)}", lambda: in_p(((1, 2),))))
+    T.append(("not_in {((1, 2),)}", lambda: not_in_p(((1, 2),))))
+    T.append(("in {(((1, 2),),)}", lambda: in_p((((1, 2),),))))
+    T.append(("in {frozenset({(1, 2)})}", lambda: in_p(frozenset({(1, 2)}))))
+    T.append(("not_in {(1, 2), (3, 4)}", lambda: not_in_p((1, 2), (3, 4))))
+
+    return T
+
+
 def nested_not_thunks(atoms):
     """~~p, ~~~p, ~(~p & q), ~~(p | q) ...: shapes on which negate/optimize unwrap negations."""
     out = []
@@ -236,7 +269,7 @@ def composite_thunks(rng, atoms, n):
     return out
 
 
-PROBE_VALUES = ["cafe\u0301", "caf\u00e9", [0], [None], [""], [[]], (0,), {0}, [0, 0], (None, 0), [False], 0, 0.5, 1, 1.5, 2, 2.5, 3, 3.5, True, False, None, "a", "", "foo", "foobar", "bar", "FOO", "Foobar", "aaa", [], [1], [1, 2], (1,), (1, "a"), ("a", 1), (), {1}, {1, 2}, set(), {"a": 1}, {"a": 1, "b": "x"}, {}, {"b": 2}, {1: 1}]
+PROBE_VALUES = [(1, 2), ((1, 2),), (((1, 2),),), frozenset({(1, 2)}), frozenset({1, 2}), frozenset({1}), "ab", "b", "cafe\u0301", "caf\u00e9", [0], [None], [""], [[]], (0,), {0}, [0, 0], (None, 0), [False], 0, 0.5, 1, 1.5, 2, 2.5, 3, 3.5, True, False, None, "a", "", "foo", "foobar", "bar", "FOO", "Foobar", "aaa", [], [1], [1, 2], (1,), (1, "a"), ("a", 1), (), {1}, {1, 2}, set(), {"a": 1}, {"a": 1, "b": "x"}, {}, {"b": 2}, {1: 1}]
 
 
 def constants_of(p, depth=0, acc=None):
@@ -280,6 +313,59 @@ def neighbours_of(p):
             out += [c - 1, c + 1, c]
         elif isinstance(c, float) and f == int(f) and abs(f) < 2**53:
             out += [int(f)]
+    seen, res = set(), []
+    for v in out:
+        k = (type(v).__name__, repr(v))
+        if k not in seen:
+            seen.add(k)
+            res.append(v)
+    return res
+
+
+def text_forms_of(p):
+    """The text forms of the predicate's scalar constants (str, repr, upper / lower case, ISO and hex forms, bytes) and the parsed forms
+    of its text constants: values a "helpful" conversion would confuse with the constant, and that Python's == tells apart."""
+    import dataclasses
+    import datetime
+    import uuid
+
+    consts = []
+
+    def walk(v, depth=0):
+        if depth > 5:
+            return
+        if isinstance(v, (str, int, float, bool, datetime.date, uuid.UUID, bytes)) or v is None:
+            consts.append(v)
+        elif isinstance(v, (set, frozenset, tuple, list)):
+            for e in list(v)[:6]:
+                walk(e, depth + 1)
+        elif dataclasses.is_dataclass(v) and not isinstance(v, type):
+            for f in dataclasses.fields(v):
+                try:
+                    walk(getattr(v, f.name), depth + 1)
+                except Exception:  # noqa: BLE001
+                    pass
+
+    walk(p)
+    out = []
+    for c in consts[:6]:
+        forms = [str(c), repr(c), str(c).upper(), str(c).lower(), " " + str(c), str(c).encode()]
+        if isinstance(c, (datetime.date, datetime.datetime)):
+            forms += [c.isoformat(), c.isoformat().replace("T", " ")]
+            if isinstance(c, datetime.datetime):
+                forms += [c.date(), c.timestamp() if c.tzinfo else None]
+        if isinstance(c, uuid.UUID):
+            forms += [c.hex, c.hex.upper(), "{" + str(c) + "}", c.int, c.bytes, c.urn]
+        if isinstance(c, str):
+            for conv in (int, float):
+                try:
+                    forms.append(conv(c))
+                except ValueError:
+                    pass
+            forms += [c.strip(), c + " ", c.casefold()]
+        if isinstance(c, bool):
+            forms += [int(c), str(c).lower()]
+        out += [f for f in forms if f is not None]
     seen, res = set(), []
     for v in out:
         k = (type(v).__name__, repr(v))
